@@ -561,9 +561,19 @@ fn main() {
         }
         // keep the longest prefix of the evolution that satisfies A1–A7 (DESIGN.md §4.2)
         let mut keep = 0;
+        // A3 across the whole history: every table name ever used is distinct, case-insensitively, from every other one
+        let mut seen_names: Vec<TableDef> = vec![];
         for i in 0..evo.len() {
-            if assume::violated(&evo[i]).is_some() || (i > 0 && (assume::retypes_fk_endpoint(&evo[i - 1], &evo[i]) || assume::case_clash(&evo[i - 1], &evo[i]))) {
+            if assume::violated(&evo[i]).is_some()
+                || (i > 0 && assume::retypes_fk_endpoint(&evo[i - 1], &evo[i]))
+                || assume::case_clash(&seen_names, &evo[i])
+            {
                 break;
+            }
+            for t in &evo[i] {
+                if !seen_names.iter().any(|x| x.name == t.name) {
+                    seen_names.push(TableDef { name: t.name.clone(), description: None, columns: vec![], constraints: vec![] });
+                }
             }
             keep = i + 1;
         }
